@@ -47,6 +47,7 @@ def funcParams (id : String) : Option (List K) :=
   | "obsS" => some [.string]
   | "obsC" => some [.int64]
   | "inj" => some []
+  | "injS" => some []
   | "cat" => some [.string, .string]
   | "boom" => some []
   | "sum3" => some [.int8, .uint16, .float32]
@@ -66,6 +67,12 @@ def prepArgs : List K → List Val → Option (List Val)
     | some a, some rest => some (a :: rest)
     | _, _ => none
 
+/-- a freshly allocated host struct (all fields zero) -/
+def hostZeroFields : List (String × Field) :=
+  [("I", .int), ("I8", .int8), ("I16", .int16), ("I32", .int32), ("I64", .int64), ("U", .uint), ("U8", .uint8),
+   ("U16", .uint16), ("U32", .uint32), ("U64", .uint64), ("F32", .float32), ("F64", .float64), ("Str", .string),
+   ("B", .bool)].map (fun (p : String × K) => (p.1, Field.scalar (zeroOf p.2)))
+
 def applyFunc (id : String) (args : List Val) (env : Env) : Option (Val × Env) :=
   match id, args with
   | "obs", [v] => some (.nil, { env with trace := ("obs", [v]) :: env.trace })
@@ -74,6 +81,9 @@ def applyFunc (id : String) (args : List Val) (env : Env) : Option (Val × Env) 
   | "inj", [] =>
     -- the host injects the name `late` (once) while the rule is running
     some (.nil, if (env.lookupBase "late").isSome then env else env.setBase "late" (.val (.i .int64 100)))
+  | "injS", [] =>
+    -- the host injects the name `ls` (once): a pointer to a fresh struct
+    some (.nil, if (env.lookupBase "ls").isSome then env else env.setBase "ls" (.struct true hostZeroFields))
   | "cat", [.s a, .s b] => some (.s (a ++ b), env)
   | "boom", [] => none
   | "neg", [.b x] => some (.b (!x), env)
